@@ -49,6 +49,14 @@ def field(v, n):
         return v          # FpRepr is a newtype around its bytes: `.0` designates the same 24-byte encoding
     if op == "oneof":
         return mk("oneof", *[field(x, n) for x in v.args])
+    if op == "chain_elem":
+        # the element of a.chain(b) is an element of a or of b: its field is that element's field
+        return mk("chain_elem", field(v.args[0], n), field(v.args[1], n), v.args[2])
+    if op == "deref" and v.args[0].op == "chain_elem":
+        ce = v.args[0]
+        da = ce.args[0].args[0] if ce.args[0].op == "refv" else mk("deref", ce.args[0])
+        db = ce.args[1].args[0] if ce.args[1].op == "refv" else mk("deref", ce.args[1])
+        return mk("chain_elem", field(da, n), field(db, n), ce.args[2])
     if op == "agg":
         a = v.args
         if 1 + n < len(a):
@@ -1007,6 +1015,12 @@ class Engine:
         op = v.op
         if op == "bytes":
             return Int(len(v.args[0]) // 2)
+        if op == "compress":
+            return Int(32)          # CompressedRistretto is [u8; 32]
+        if op == "formatted" and v.args and is_t(v.args[0]) and v.args[0].op == "fmtargs" and len(v.args[0].args) == 2 and \
+                is_t(v.args[0].args[0]) and v.args[0].args[0].op == "bytes" and is_t(v.args[0].args[1]) and \
+                v.args[0].args[1].op == "agg" and len(v.args[0].args[1].args) == 1:
+            return Int(len(v.args[0].args[0].args[0]) // 2)      # format!("literal") with no arguments
         if op == "agg" and v.args[0] == "array":
             return Int(len(v.args) - 1)
         if op == "from_elem":
